@@ -125,12 +125,15 @@ func (m *metrics) reloadFile(name string) {
 
 func (m *metrics) initCacheStats(limitBytes int) {
 	m.dirCacheLimitBytes.Set(float64(limitBytes))
+	verifCacheStat("limit", limitBytes)
 	m.updateCacheStats(0, 0)
 }
 
 func (m *metrics) updateCacheStats(sizeBytes, entries int) {
 	m.dirCacheEntries.Set(float64(entries))
 	m.dirCacheSizeBytes.Set(float64(sizeBytes))
+	verifCacheStat("entries", entries)
+	verifCacheStat("size", sizeBytes)
 }
 
 func (m *metrics) cacheRequest(archive, kind, status string) {
